@@ -202,6 +202,7 @@ class World:
         self._in_watch = False
         self.finished = False
         self.payload_of: dict = {}
+        self.hre_parent: dict = {}  # root tag -> tag of the event whose handler re-dispatched it first (it becomes its parent)
         self.accepted: set = set()
 
     # -- trace
@@ -425,6 +426,39 @@ def make_handler(w: World, hi: int, hspec: dict):
         w.children.setdefault(ev.tag, []).append(tag)
         return tag
 
+    def do_hredisp(ev, me, op):
+        """['hredisp', k, bus]: the handler dispatches an EXISTING event object (one that ordinary code dispatched earlier, e.g. a job
+        to be retried) again - not the event it is handling. Lineage bookkeeping of the harness (parent / children maps) is left alone."""
+        # never an ancestor of the event being handled (through ordinary lineage or an earlier re-dispatch): the user would be building
+        # a parent cycle, which no property speaks about
+        anc, x, hops = {ev.tag}, ev.tag, 0
+        while x is not None and hops < 1000:
+            hops += 1
+            p = w.parent.get(x)
+            x = p[1] if (p is not None and p[0] != 'A') else w.hre_parent.get(x)
+            if x is None or x in anc:
+                break
+            anc.add(x)
+        cands = [t for t in w.roots if t not in anc]
+        if not cands or w.ndisp >= w.cap:
+            w.rec('disp-skip', by=list(me))
+            return
+        w.ndisp += 1
+        tag = cands[op[1] % len(cands)]
+        obj = w.events[tag]
+        rec = w.rec('disp', by=list(me), ev=tag, bus=bus_name(w.sc, op[2]), mode='ff', xp=None, hre=True, had_parent=obj.event_parent_id is not None, in_path=bus_name(w.sc, op[2]) in obj.event_path)
+        try:
+            got = w.buses[op[2]].dispatch(obj)
+        except Exception as ex:
+            rec['ok'] = False
+            rec['exc'] = type(ex).__name__
+            w.rec('disp-rej', by=list(me), ev=tag, exc=type(ex).__name__)
+            return
+        rec['ok'] = True
+        rec['same'] = got is obj
+        if not rec['had_parent']:
+            w.hre_parent[tag] = ev.tag
+
     def do_redispatch(ev, me, tb, tag):
         """the handler hands a child object the bus refused earlier to the same bus again"""
         child = w.events[tag]
@@ -486,6 +520,8 @@ def make_handler(w: World, hi: int, hspec: dict):
                     for tag in pend:
                         await do_await(me, tag)
                     pend = []
+                elif k == 'hredisp':
+                    do_hredisp(ev, me, op)
                 elif k == 'fan':
                     # fan out op[2] fire-and-forget children to one bus; the bus may refuse some (back-pressure). With op[3] the
                     # handler does what the error message says: waits for the accepted ones, then dispatches the refused objects again
@@ -566,6 +602,8 @@ def make_handler(w: World, hi: int, hspec: dict):
                 k = op[0]
                 if k == 'disp':
                     do_dispatch(ev, me, op, [])
+                elif k == 'hredisp':
+                    do_hredisp(ev, me, op)
                 elif k == 'raise':
                     if op[1] == 'chain':
                         try:
@@ -733,6 +771,18 @@ async def run_actor(w: World, ai: int, ops: list):
                     rec['ok'] = False
                     rec['exc'] = type(ex).__name__
                     w.rec('disp-rej', by=who, ev=tag, exc=type(ex).__name__)
+                    continue
+                also = flags.get('also')
+                if also is not None and also % len(w.buses) != op[1]:
+                    # the same object is handed directly to a second bus in the same breath (no forwarding handler involved)
+                    b2 = also % len(w.buses)
+                    rec2 = w.rec('redisp', by=who, ev=tag, bus=bus_name(w.sc, b2), was_complete=w.is_complete(e), status=e.event_status, also=True)
+                    try:
+                        w.buses[b2].dispatch(e)
+                        rec2['ok'] = True
+                    except Exception as ex:  # noqa
+                        rec2['ok'] = False
+                        rec2['exc'] = type(ex).__name__
         elif k == 'redisp':
             if not w.roots:
                 continue
